@@ -307,7 +307,9 @@ func c08EndToEnd(stream bool, transit time.Duration, ctxRace bool) *explore.Scen
 		Name: fmt.Sprintf("C08/end-to-end/stream=%v/transit=%v/ctxrace=%v", stream, transit, ctxRace), Family: fam, Prop: "C08", Bound: 0, Horizon: time.Nanosecond,
 		Run: func() {
 			timeouts := []time.Duration{-time.Second, 0, 1, 999 * time.Microsecond, time.Millisecond, 1500 * time.Microsecond, 2 * time.Millisecond,
-				time.Second, time.Hour, 10000 * time.Hour, -2} // -2: no deadline at all
+				time.Second, 1500*time.Millisecond + 7*time.Microsecond, time.Hour, time.Hour + 333*time.Millisecond,
+				99999999 * time.Millisecond, 100000000 * time.Millisecond, 100000001 * time.Millisecond, 30*time.Hour + 500*time.Millisecond,
+				100*time.Hour + 999*time.Millisecond, 10000*time.Hour - 500*time.Millisecond, 10000 * time.Hour, -2} // -2: no deadline at all
 			w := env.NewWorld()
 			d := env.NewDirect(w, env.DirectOpts{Pipe: env.PipeOpts{Cap: 64, CtxRace: ctxRace}})
 			d.Pipe.A.OnWrite = func(k int, rpc *env.Rpc) { vsched.Sleep(transit) }
